@@ -57,6 +57,8 @@ def fail(tag):
     when the tag is a listed known finding (that path is then not explored any
     further, the rest of the space still is)."""
     REPLAY['tag'] = tag
+    if os.environ.get('VERIF_RAISE_TAGS') and tag not in SUPPRESS:
+        raise AssertionError(tag)       # debugging aid: shows the tag in CrossHair's message
     if tag in SUPPRESS:
         if REPLAY['on']:
             REPLAY['suppressed'].append(tag)
